@@ -510,11 +510,19 @@ def seq_workers(crate):
                 if g is not None and g.path != fp and g.file.endswith("parse/mod.rs") and not scalar_fn(g) \
                         and any(isinstance(S._deref(a, path), int) and S._deref(a, path) == 0x29 for a in args[1:]) \
                         and not g.path.endswith("::end_seq"):
+                    from . import cfg
+                    if not cfg.back_edges(g) and g.kind != "closure" and crate.is_new(g.path):
+                        # a loop-free step the entry point was split into (charge the depth, parse, close): the parser
+                        # of the contents is further in
+                        return ("inline", g)
                     found.append((g, S._callee_tyenv(t, g)))
                     return ("stop", "worker")
                 return None
 
-            S = sim.Sim([crate], hooks={"call": hook}, inline=helper_inline(crate), max_depth=4, max_paths=2000)
+            hi = helper_inline(crate)
+            light = light_fns(crate)
+            inl = lambda a, b, fp=fp: hi(a, b) or (b.kind == "closure" and (b.owner == fp or b.owner in light))
+            S = sim.Sim([crate], hooks={"call": hook}, inline=inl, max_depth=6, max_paths=2000)
             try:
                 S.run(f)
             except sim.Limit:
